@@ -122,7 +122,15 @@ def scenario(sh: Shard, seed, idx, tier):
     snapshot = r.choice(["default.snapshot", "inYT-Pump1Hi-2020-12-13 11_19_35.snapshot", "inYT-all off-2020-10-23 18_00_45.snapshot"])
     if kind in ("blackout-near-tick", "lossy-connect-then-long-blackout", "active-blackout"):
         snapshot = "inYT-Pump1Hi-2020-12-13 11_19_35.snapshot"
-    mw = ManWorld(r, regime, suspend=suspend, snapshot=snapshot, max_iter=20_000_000, wall_cap=900)
+    addr_kw = {}
+    if r.random() < 0.15:
+        # the configured address is a host name (resolved by the network), not the literal IP the spa
+        # answers from
+        addr_kw["address"] = "spa.lan"
+        sh.count("scenarios_with_a_host_name_as_spa_address")
+    mw = ManWorld(r, regime, suspend=suspend, snapshot=snapshot, max_iter=20_000_000, wall_cap=900, **addr_kw)
+    if addr_kw:
+        mw.w.net.aliases = {"spa.lan": "10.0.0.1"}
     if kind in ("blackout-connected", "active-blackout", "rferr") and r.random() < 0.35:
         # a client whose handler is slow on ONE event only - the disconnect announcement (tearing a UI
         # down takes a moment) - and instant on all others
